@@ -851,7 +851,7 @@ func definitionRegistryTables(c *core.Ctx, r *core.Report, rule3, rule72 string)
 }
 
 func c06(c *core.Ctx, r *core.Report) {
-	r.Explanation = "C06 type-directed injection: decision tables by abstract interpretation (symbolic tokens for types, candidates and options; registry queries, reflect.Type methods and option constructors answered by oracles that record what they are asked): (R1) each dependency processor's PostProcessProperties on every tag x tag value x field shape {*T, I, []*T, []I, other kinds}: unnamed pointer points query Type(<ptr type>), interface points InterfaceType(<iface>), the func tag adds FuncName / Or(FuncNameAndResult...), other kinds and foreign tags cause nothing; (R2) the Type / InterfaceType predicates are exactly type identity / Implements, the func predicates look the method up by name; (R3) the definition registry's GetMetas visits every stored definition and returns exactly those all options accept; (R4) And / Or truth tables; (R5) the slice fill of Inject is a bijection and (R7) excludes the holder (Inject table); (R6) narrowing only removes candidates (narrowing table). Decides that the candidate set is sound and complete by construction; reflect's own semantics are trusted."
+	r.Explanation = "C06 type-directed injection: decision tables by abstract interpretation (symbolic tokens for types, candidates and options; registry queries, reflect.Type methods and option constructors answered by oracles that record what they are asked): (R1) each dependency processor's PostProcessProperties on every tag x tag value x field shape {*T, I, []*T, []I, other kinds}: unnamed pointer points query Type(<ptr type>), interface points InterfaceType(<iface>), the func tag adds FuncName / Or(FuncNameAndResult...), other kinds and foreign tags cause nothing, and a point preceded by another point of the same tag (unnamed, or naming a missing component) is treated exactly as when processed alone (row independent); (R2) the Type / InterfaceType predicates are exactly type identity / Implements, the func predicates look the method up by name; (R3) the definition registry's GetMetas visits every stored definition and returns exactly those all options accept; (R4) And / Or truth tables; (R5) the slice fill of Inject is a bijection and (R7) excludes the holder (Inject table); (R6) narrowing only removes candidates (narrowing table). Decides that the candidate set is sound and complete by construction; reflect's own semantics are trusted."
 	r.Assumptions = []string{"reflect.Type identity/Implements/AssignableTo are correct", "sync2.Map.Range visits every stored entry once when the callback keeps returning true (C20)"}
 	ps := builtinProcessors(c)
 	deps := withRole(ps, "dep", false)
